@@ -163,7 +163,7 @@ func (e *emitter) expr(x *Expr, pts *[]*Point) {
 		e.tok(")")
 		// parser: `( expr )` is the inner node with its line reset to that of "(" -- except that
 		// a directly parenthesised call keeps its own line
-		if x.A.K != "call" && x.A.K != "method" {
+		if x.A.K != "call" && x.A.K != "method" && x.A.K != "func" {
 			setAnchor(x.A, x.First)
 		}
 	case "table":
